@@ -235,4 +235,19 @@ PROPS = {
                       "collection with a nil error) are fixed.",
         "assumptions": ["bufio.Scanner stops with an error at a token > 64 KiB"],
     },
+    "C16": {
+        "streams": ["sched-rec"],
+        "gen": True,
+        "rule": "sched-rec (isolated child, 20 s watchdog per case): interval recorder (tickers of 50 us - 2 ms) and synchronized recorder over a raw recorder, 1-8 goroutines x 1-60 "
+                "increments x 1-6 begin/EndTest cycles; one third with the flusher held between its tick and the mutex across EndTest (hook interval.tick), one third with seeded "
+                "perturbation at every schedule point. Observed: every call returns, persisted counters per cycle (monotone, final = G*M), goroutine profile after EndTest/Reset. "
+                "Distinct = distinct case line.",
+        "level_text": "Theorems (Props/C16.lean): all_lock_balanced — the lock/unlock/return skeleton of every mutex-taking method, REGENERATED from /repo's sources on every run "
+                      "(harness/cmd/extract -> Gen/Facts.lean), releases the mutex on every return path (kernel-evaluated); exited_never_owns, owner_can_always_move (no call blocks "
+                      "forever), flusher_at_most_one, no_active_flusher_without_canceler, counters_are_sums for every schedule of any number of user goroutines and flusher "
+                      "generations (inductive invariant); deadlock_before_fix and unrepaired_flusher_rejected for the pinned commit (F15).",
+        "level_note": "PARTIAL for 'no data races': mutex regions are atomic steps of the model and the Go memory model is trusted. The skeleton check looks at Lock/Unlock/defer/return "
+                      "structure only (it does not know which fields a method touches). The histogram interval recorder shares the skeleton; its stream cases use the performance variant.",
+        "assumptions": ["sync.Mutex is a correct mutex"],
+    },
 }
